@@ -2,19 +2,20 @@
 Model of `stream.Buffered(s, size)` (`stream/buffered_stream.go`) inside one materialisation by the sequential
 terminal, as a small-step transition system.  Pipeline:  source provider P → Buffered(size) → downstream + terminal.
 
-Goroutines: the filler (buffered_stream.go:49-75), which runs a complete *inner* sequential terminal over the source
-(`s.Consume(ctx, cb)` :53 → shpan_stream.go:97-151: open P, loop {ctx check; P.Emit; callback}, deferred close of P)
+Goroutines: the filler (buffered_stream.go:53-79), which runs a complete *inner* sequential terminal over the source
+(`s.Consume(ctx, cb)` :57 → shpan_stream.go:97-151: open P, loop {ctx check; P.Emit; callback}, deferred close of P)
 and therefore is the only goroutine that ever touches P; and the consumer goroutine running the outer terminal, whose
 pulls are `FromChannel`'s select (channel_stream_provider.go:21-32) followed by Buffered's unpacking
-(buffered_stream.go:29-41, with the repair of D7 at :32-36).
+(buffered_stream.go:25-37, with the repair of D7 at :28-32).
 
 Contexts: ctx0 = caller ctx (outer terminal's check shpan_stream.go:134 and the pull's select);
-ctx1 = the outer materialisation ctx (doOpenStream, shpan_stream.go:300), handed to the lifecycle Open :46 and hence
-to the filler: inner ctx check, P.Emit(ctx1), the callback's select :55-58 and the final select :63-73 all use it.
+ctx1 = the outer materialisation ctx (doOpenStream, shpan_stream.go:300), handed to the lifecycle Open :42 and hence
+to the filler: inner ctx check, P.Emit(ctx1), the callback's select :59-62 and the final select :67-77 all use it.
 ctx1 is cancelled by ctx0 or by the outer terminal's deferred cancelFunc (shpan_stream.go:129); the lifecycle Close
 functions of Buffered / FromChannel are no-ops, so that cancelFunc is the whole close sequence.
 
-Channel: capacity size-1 (:23).  The filler's last send is the EOF marker or the upstream error (:61-74) and nothing
+Channel: capacity size-1, created by the lifecycle Open of every materialisation (:47-50, fix 342661a: the stream value
+can be materialised again).  The filler's last send is the EOF marker or the upstream error (:65-78) and nothing
 is sent after it, so the channel content is kept as `ch` (values, FIFO) followed by the optional final item `fin`.
 -/
 import ShpanVerif.Model.ConcCore
@@ -32,11 +33,11 @@ inductive FPc
   | opening            -- inner doOpenStream: P.Open pending
   | check              -- inner shpan_stream.go:134 `ctx.Err()`
   | inEmit             -- inside P.Emit(ctx1)
-  | cb (i : Nat)       -- callback buffered_stream.go:55-58 `select { bufferChan <- v; <-ctx.Done() }`
+  | cb (i : Nat)       -- callback buffered_stream.go:59-62 `select { bufferChan <- v; <-ctx.Done() }`
   | closeP (ok : Bool) -- inner deferred close: P.Close pending; `ok` = the inner terminal's result is nil
-  | closed (ok : Bool) -- P closed, inner cancelFunc; buffered_stream.go:62 `if err != nil`
-  | sendFin (it : Fin) -- :63-66 / :70-73 `select { bufferChan <- it; <-ctx.Done() }`
-  | closeCh            -- deferred close(bufferChan) :51
+  | closed (ok : Bool) -- P closed, inner cancelFunc; buffered_stream.go:66 `if err != nil`
+  | sendFin (it : Fin) -- :67-70 / :74-77 `select { bufferChan <- it; <-ctx.Done() }`
+  | closeCh            -- deferred close(bufferChan) :55
   | done
   deriving DecidableEq, Repr, Hashable
 
@@ -52,7 +53,7 @@ structure Cfg where
   n : Nat
   size : Nat       -- ≥ 2 (size 1 returns the source unchanged :16-18, size ≤ 0 is an error stream :13-15)
   e : Nat := 0
-  /-- `true` = the code as it is (buffered_stream.go:32-36, fix f074f78): a closed channel without the marker while
+  /-- `true` = the code as it is (buffered_stream.go:28-32, fix f074f78): a closed channel without the marker while
       ctx is cancelled is the context's error; `false` = the earlier behaviour (EOF), kept for the D7 witness. -/
   fix7 : Bool := true
   deriving DecidableEq, Repr
@@ -87,7 +88,7 @@ structure St where
 inductive Label
   | fOpenOk | fOpenErr | fCheck | fEmitVal | fEmitEof | fEmitErr | fSend | fSkip | fCloseP | fClosed
   | fSendFin | fDropFin | fCloseCh
-  | cCheck | cSelCtx | cRecv | cClosed | cNext | cRepull | cStop | cFail | cClose2
+  | cOpenFail | cCheck | cSelCtx | cRecv | cClosed | cNext | cRepull | cStop | cFail | cClose2
   | cancel
   deriving DecidableEq, Repr
 
@@ -144,12 +145,18 @@ def step (cfg : Cfg) (s : St) : Label → Option St
     | .sendFin _ => if s.ctx1 then some { s with f := .closeCh } else none
     | _ => none
   | .fCloseCh => if s.f = .closeCh then some { s with f := .done, chClosed := true } else none
+  | .cOpenFail =>  -- a lifecycle element placed AFTER Buffered fails to open (shpan_stream.go:317-331, error or panic):
+                   -- the filler was already started by Buffered's own element; doOpenStream closes the opened elements
+                   -- (no-ops here), cancels the materialisation ctx and the terminal returns the error without pulling
+    if s.cons = .check ∧ s.delivered = [] then
+      some { s with cons := .close2, res := some .errOther, stopped := true }
+    else none
   | .cCheck =>
     if s.cons = .check then
       if s.ctx0 then some { s with cons := .close2, res := some .errCtx } else some { s with cons := .sel }
     else none
   | .cSelCtx => if s.cons = .sel ∧ s.ctx0 then some { s with cons := .close2, res := some .errCtx } else none
-  | .cRecv =>      -- channel_stream_provider.go:25; buffered_stream.go:40 Unpack
+  | .cRecv =>      -- channel_stream_provider.go:25; buffered_stream.go:36 Unpack
     if s.cons = .sel then
       match s.ch, s.fin with
       | i :: r, _ => some { s with cons := .got, ch := r, delivered := s.delivered ++ [i] }
@@ -157,7 +164,7 @@ def step (cfg : Cfg) (s : St) : Label → Option St
       | [], some .err => some { s with cons := .close2, fin := none, res := some .errOther }
       | [], none => none
     else none
-  | .cClosed =>    -- channel closed and drained without the marker: channel_stream_provider.go:26-29, buffered_stream.go:31-37
+  | .cClosed =>    -- channel closed and drained without the marker: channel_stream_provider.go:26-29, buffered_stream.go:27-33
     if s.cons = .sel ∧ s.ch = [] ∧ s.fin = none ∧ s.chClosed then
       if cfg.fix7 ∧ s.ctx0 then some { s with cons := .close2, res := some .errCtx }
       else some { s with cons := .close2, res := some .ok }
